@@ -30,7 +30,7 @@ def relevant(ob, prop):
 
 def strip_line(name):
     """obligation names in the baseline / known findings do not carry line offsets"""
-    return re.sub(r"@\+\d+", "@", name)
+    return re.sub(r"@\+-?\d+", "@", name)
 
 
 def main(argv=None):
